@@ -9,7 +9,7 @@ CHECK = {
  'level': 'fault_enumeration',
  'technique': 'exhaustive single-fault and pair-fault enumeration (component x kind x cycle window) over all fan x sensor x curve back-end combinations on the real RunDaemon, one OS process per execution, virtual time',
  'rule': 'per combination of fan back-end {hwmon,file,cmd} x sensor back-end {hwmon,file,cmd} x curve {linear, pid, function(linear), function(pid+linear), each of the six function types over two PID members}: the fault-free run, every single fault '
-         '(component in {sensor read, RPM read, PWM read, PWM write, mode write} x kind in {read error, non-numeric, whitespace-only, empty content (real file content, parsed by fan2go itself); write error, silently ignored write} x control-cycle window 0..4) and pairs of faults (quick: 4 combinations, windows 0..2; '
+         '(component in {sensor read, RPM read, PWM read, PWM write, mode write} x kind in {read error, non-numeric, whitespace-only, empty content (real file content, parsed by fan2go itself); write error, silently ignored write} x control-cycle window 0..4) , every single fault that persists from window 2 until shutdown, every read-side fault paired with a write-side fault in the same control period, and further pairs (quick: 4 combinations, windows 0..2; '
          'thorough: all combinations). A fault makes every operation of that component fail during one control period. Oracle: the process exits 0 and only after the final SIGTERM, no Go panic / fatal error in its '
          'output, and after exit every fan is in its original mode (if that was not manual) or at PWM 255. distinct_nontrivial = distinct (job, outcome) pairs.',
  'assumptions': COMMON_ASSUME + ['gosensors stand-in and vsignal stand-in (DESIGN 2.1)', 'cmd back-ends are root-owned /bin/sh scripts whose behaviour is switched through a mode file'],
